@@ -24,7 +24,7 @@ func init() {
 		}
 		return vs
 	},
-		Level:       "held on every recorded history: every program of 2 threads x <=2 calls and 3 threads x 1 call over each of the 8 types' single-element operations (the cache both with live entries only and starting from expired-but-unpurged entries) with a 2-value (thorough 3-value) alphabet and 3 small initial states, each executed 16 (thorough 256, also with GOMAXPROCS=2) times under seeded delays at lock boundaries (readers are refused while a writer is pending, as sync.RWMutex does, so a recursive read lock ends in the logical deadlock verdict), plus seeded larger programs; every history (with a sequential observation suffix) checked by porcupine against the implementation replayed sequentially",
+		Level:       "held on every recorded history: every program of 2 threads x <=2 calls and 3 threads x 1 call over each of the 8 types' single-element operations (the cache both with live entries only and starting from expired-but-unpurged entries) with a 2-value (thorough 3-value) alphabet and 3 small initial states, each executed 16 (thorough 256, also with GOMAXPROCS=2) times under seeded delays at lock boundaries (readers are refused while a writer is pending, as sync.RWMutex does, so a recursive read lock ends in the logical deadlock verdict), plus seeded larger programs, plus deep tables (a BsTree whose root has two children; Queue and Stack - thorough: also LQueue, LStack, Heap - holding 300 elements with membership probes at positions 0/63/64/127/128/129/255/256/299); every history (with a sequential observation suffix) checked by porcupine against the implementation replayed sequentially",
 		Technique:   "client-boundary history recorder + porcupine linearizability checker with the sequentially replayed implementation as specification, executions under the tracked sync shim (seeded delays between critical sections)",
 		Assumptions: []string{"interleavings are those the runtime + seeded delays produce (measured: distinct lock-acquisition orders are reported); not exhaustive, a split section that no run opens is missed", "relies on C01 for races inside one lock acquisition (no delay is injected there)", "the sequential behaviour itself is judged by C03-C09, not here", "porcupine v1.3.0 is trusted"}})
 	reg(&propCfg{ID: "C01", Pkg: "./props/c01", Variants: c01Variants,
@@ -48,11 +48,11 @@ func init() {
 		Technique:   "reference-model trace monitor (recency-list model) over systematic small-scope sweep + seeded random sequences",
 		Assumptions: []string{"the recency-list model (refresh on Add, Get, GetOldest only) and the generators are trusted", "LRUCache is single-threaded by contract"}})
 	reg(&propCfg{ID: "C09", Pkg: "./props/c09", Variants: simple(false),
-		Level:       "held on every executed case: complete sweep of all Put sequences of up to 5 keys of length 1..3 over {a,b} (and 4 keys of length 1..2 over {a,b,c}; thorough: 6 keys, key length 4, 3 letters) probed with every string of length <= 4 for Get/Contains/LongestPrefix/StartsWith plus Keys, and seeded random key sets with shared prefixes, nested keys and bytes 0x00/>=0x80",
+		Level:       "held on every executed case: complete sweep of all Put sequences of up to 5 keys of length 1..3 over {a,b} (and 4 keys of length 1..2 over {a,b,c}; thorough: 6 keys, key length 4, 3 letters) probed with every string of length <= 4 for Get/Contains/LongestPrefix/StartsWith plus Keys (also with the previous listing left partly unread in the shared result queue), and seeded random key sets with shared prefixes, nested keys and bytes 0x00/>=0x80",
 		Technique:   "reference-model trace monitor (map + sorted key list) over systematic small-scope sweep + seeded random key sets",
 		Assumptions: []string{"the map model and the generators are trusted", "the trie is backed by queue.Queue as in the package's own example", "Put with an empty key is outside the property's domain and not exercised", "single goroutine; concurrency is C01/C02"}})
 	reg(&propCfg{ID: "C10", Pkg: "./props/c10", Variants: simple(false),
-		Level:       "held on every executed case: complete sweep of all Put/Remove sequences up to length 6 (thorough 7) over keys 0..5, seeded random sequences over up to 100 keys and sorted/reversed/random bulk loads of 200-2000 (thorough 50000) keys with interleaved removes and re-puts, 20000 (400000) insertion orders of 4-200 keys built from ascending/descending runs over shuffled key blocks, alternating runs, zigzag and middle-out orders; the height bound after every single step, Size/IsEmpty/Get of every probe key/Traverse compared with a map model",
+		Level:       "held on every executed case: complete sweep of all Put/Remove sequences up to length 6 (thorough 7) over keys 0..5, seeded random sequences over up to 100 keys and sorted/reversed/random bulk loads of 200-2000 (thorough 50000) keys with interleaved removes and re-puts, 20000 (400000) insertion orders of 4-200 keys built from ascending/descending runs over shuffled key blocks, alternating runs, zigzag and middle-out orders; the height bound after every single step, the key just written or removed read back before any other lookup, observation every 1st/2nd/5th/11th step, Size/IsEmpty/Get of every probe key/Traverse compared with a map model",
 		Technique:   "reference-model trace monitor (map model + logarithmic height bound) over systematic small-scope sweep + seeded random and bulk sequences",
 		Assumptions: []string{"the map model and the generators are trusted", "the slot-file announcement is truncated for bulk cases (they are re-generated from the seed, not re-executed from the slot)", "BTree is single-threaded by contract"}})
 	reg(&propCfg{ID: "C19", Pkg: "./props/c19", Variants: simple(false),
@@ -60,19 +60,19 @@ func init() {
 		Technique:   "reference-model trace monitor (slice model, logical cycle bound inside the Each callback) over systematic small-scope sweep + seeded random sequences",
 		Assumptions: []string{"the slice model and the generators are trusted", "values are distinct and handles come from Find immediately before use (stale handles, duplicates and Delete(nil) are outside the property)", "Shift/Pop on a one-element list may leave it unchanged or zero its value (the model adopts what it sees)"}})
 	reg(&propCfg{ID: "C11", Pkg: "./props/c11", Variants: simple(false),
-		Level:       "held on every executed case: complete enumeration of all slices up to length 5 (thorough 6) over {0,1,2}, all pairs (<=4, <=3) and triples (<=3) for the multi-argument functions, four key functions incl. a non-idempotent one, a bounded family of Union nestings up to depth 3 incl. malformed ones, plus seeded random inputs over int/string/float64; results compared with independent quadratic references",
+		Level:       "held on every executed case: complete enumeration of all slices up to length 5 (thorough 6) over {0,1,2}, all pairs (<=4, <=3) and triples (<=3) for the multi-argument functions, four key functions incl. a non-idempotent one, a bounded family of Union nestings up to depth 3 incl. malformed ones, plus seeded random inputs over int/string/float64 incl. large ones (18-600 distinct values, each repeated later); results compared with independent quadratic references",
 		Technique:   "differential monitor against independent quadratic references + defining-property checkers",
 		Assumptions: []string{"the reference implementations are trusted", "IntersectionBy/DifferenceBy duplicate handling is read leniently (see DESIGN C11 'Not asserted')", "Intersection with zero arguments is outside the domain"}})
 	reg(&propCfg{ID: "C12", Pkg: "./props/c12", Variants: simple(false),
-		Level:       "held on every executed case: complete enumeration of all slices up to length 7 (thorough 9) over {0,1,2} x chunk sizes 1..8 x drop counts -9..9 x six predicates x three group keys, all square matrices up to 3x3 over 2 values, a bounded family of nestings up to depth 3, all strings of <=4 runes over a 5-rune alphabet, plus seeded random larger inputs; checked against reference implementations, identities and callback logs",
+		Level:       "held on every executed case: complete enumeration of all slices up to length 7 (thorough 9) over {0,1,2} x chunk sizes 1..8 x drop counts -9..9 x six predicates x three group keys, all square matrices up to 3x3 over 2 values, a bounded family of nestings up to depth 3, all strings of <=4 runes over a 5-rune alphabet, plus seeded random larger inputs; Merge on overlapping windows of one backing array, a second walk over the same slice after every visitor, Filter then Reject of the same slice; checked against reference implementations, identities and callback logs",
 		Technique:   "differential monitor against reference implementations + round-trip identities + logging callbacks",
 		Assumptions: []string{"the references are trusted", "Chunk with size <= 0 and Zip/Unzip on non-square input panic by documentation and are not judged", "Shuffle is only required to return a permutation"}})
 	reg(&propCfg{ID: "C13", Pkg: "./props/c13", Variants: simple(false),
-		Level:       "held on every executed case: complete enumeration of all slices up to length 5 (thorough 6) over 3 values x probes/predicates/key functions/index windows, ALL int8 triples for Clamp/InRange and all int8 for Abs, all 1-/2-/3-argument Range forms in [-10,10] (thorough [-14,14]) plus quarter-step floats, all map slices up to length 5 for the ByKey variants, plus seeded random inputs; checked against the definitions",
+		Level:       "held on every executed case: complete enumeration of all slices up to length 5 (thorough 6) over 3 values x probes/predicates/key functions/index windows, ALL int8 triples for Clamp/InRange and all int8 for Abs, all 1-/2-/3-argument Range forms in [-10,10] (thorough [-14,14]) plus quarter-step floats, all map slices up to length 5 for the ByKey variants, Nth at the extreme int values, Sum/SumBy/Mean on int8..uint64/float32 against accumulation in the element type, Compare with by-key comparators, plus seeded random inputs; checked against the definitions",
 		Technique:   "definitional checkers (differential against direct definitions) over complete small-scope enumeration + seeded random inputs; hangs/blow-ups by watchdog + isolated re-execution",
 		Assumptions: []string{"the definitions as coded in the checker are trusted", "not asserted: Mean of an empty slice, Clamp with min > max, unsigned/overflowing Range arguments, Range() with no argument", "FindMin/MaxByKey when some map lacks the key: an error or the extremum over the maps that have it"}})
 	reg(&propCfg{ID: "C14", Pkg: "./props/c14", Variants: simple(false),
-		Level:       "held on every executed case: complete enumeration of all maps with up to 3 (thorough 4) entries over 4 keys x 3 values x five value predicates x all key lists up to length 3, all collections of up to 3 (4) maps from a pool of 8, plus seeded random larger maps; each case executed 4 times on freshly built maps; results compared with references as sets/maps or by their defining property",
+		Level:       "held on every executed case: complete enumeration of all maps with up to 3 (thorough 4) entries over 4 keys (incl. the zero key "") x 3 values x five value predicates x all key lists up to length 3, all collections of up to 3 (4) maps from a pool of 8, plus seeded random larger maps; each case executed 4 times on freshly built maps; results compared with references as sets/maps or by their defining property",
 		Technique:   "differential monitor + defining-property checkers, each case repeated to sample map iteration orders",
 		Assumptions: []string{"the references are trusted", "Go's per-range random iteration start is the source of iteration-order diversity (4 executions per case)", "Pick with an empty key list returns an error by documentation (only its empty result is checked)"}})
 	reg(&propCfg{ID: "C15", Pkg: "./props/c15", Variants: simple(false),
@@ -80,9 +80,9 @@ func init() {
 		Technique:   "differential monitor against byte-level references + round-trip identities",
 		Assumptions: []string{"the references are trusted (Substr: out-of-range selection = empty string, as the property restates the PHP rule)", "not asserted: Pad* with an empty token, case mapping/WrapAllRune on invalid UTF-8, the case styles outside ASCII alphanumeric words joined by runs of ' -_&'"}})
 	reg(&propCfg{ID: "C16", Pkg: "./props/c16", Variants: simple(false),
-		Level:       "held on every executed case: every adapter (one per exported slice/map helper, cross-checked against the package's exported functions) x 200 (thorough 2000) generated argument tuples x spare capacity {0,1,8}, and every ordered pair of non-in-place adapters sharing the first argument x 20 (200) tuples; arguments compared with shadow copies incl. sentinel-filled capacity regions, the slice-of-slices behind spread variadic parameters and []map collections tracked slot by slot, earlier results re-read after later calls (heap.Sort's result also after later in-place calls on the same argument)",
+		Level:       "held on every executed case: every adapter (one per exported slice/map helper, cross-checked against the package's exported functions) x 200 (thorough 2000) generated argument tuples x spare capacity {0,1,8}, and every ordered pair of non-in-place adapters sharing the first argument x 20 (200) tuples; arguments compared with shadow copies incl. sentinel-filled capacity regions, the slice-of-slices behind spread variadic parameters and []map collections tracked slot by slot, earlier results re-read after later calls, also after later IN-PLACE calls on the same argument for every helper that does not return a view, callbacks that re-check the arguments from inside every invocation and callbacks that panic mid-call",
 		Technique:   "shadow-copy monitor with capacity-region sentinels; result re-read after later calls",
-		Assumptions: []string{"helpers whose arguments are strings/scalars only cannot disturb them (Go strings are immutable) and are listed, not executed", "views (Drop, Chunk) may alias their argument; only writes are judged", "the documented in-place helpers are Reverse, Reject, Omit, OmitBy, heap.FromSlice, heap.Sort"}})
+		Assumptions: []string{"helpers whose arguments are strings/scalars only cannot disturb them (Go strings are immutable) and are listed, not executed", "views (Drop, Chunk; the map-collection filters return the argument's maps) may alias their argument; only writes are judged", "the documented in-place helpers are Reverse, Reject, Omit, OmitBy, heap.FromSlice, heap.Sort"}})
 	reg(&propCfg{ID: "C18", Pkg: "./props/c18", Variants: simple(false),
 		Level:       "held on every executed case: complete enumeration of n in -2..8 x 0..12 calls x counter types for After/Before, 0..12 calls x first result {10, 0, -1, 1} for Once with int, bool and string results (the zero value must be cached like any other), n in -2..8 x all 511 success/failure patterns up to length 8 for Retry and RetryWithDelay (the latter inside testing/synctest bubbles: the wait between the end of one attempt and the start of the next is an exact virtual-time difference, also when the attempts themselves take time shorter than, equal to or longer than the delay)",
 		Technique:   "counting-callback monitor over complete enumeration; virtual time (testing/synctest) for the delay clause",
@@ -115,11 +115,11 @@ func init() {
 		}
 		return []variant{{Name: "race", Race: true, Shards: 1}}
 	},
-		Level:       "held on every executed case: Delay with Stop at instants around the delay; all debounce scripts up to length 4 (thorough 5) over call/burst/cancel x 4 gaps x 2 waits plus random bursts of 1..50 calls; all throttle scripts up to length 4 (5) over Call/burst x 4 gaps x 7 consumer arrangements x trailing on/off x period 5ms (thorough: also 50ms) plus random scripts; executed in testing/synctest bubbles under the race detector with exact virtual timestamps",
-		Technique:   "timestamping callbacks + consumer log in virtual time (testing/synctest), race detector on",
-		Assumptions: []string{"the fake clock of testing/synctest is the time source the library reads (time.AfterFunc/Since/Now)", "nothing is asserted at exact equality (gap == wait, delta == period): scripts avoid it", "schedules are those the Go runtime produces inside the bubble; thorough tier repeats with varied GOMAXPROCS", "throttle liveness is asserted only for the trailing configuration (as the property states)"}})
+		Level:       "held on every executed case: Delay with Stop at instants around the delay; all debounce scripts up to length 4 (thorough 5) over call/burst/cancel x 4 gaps x 2 waits plus random bursts of 1..50 calls; all throttle scripts up to length 4 (5) over Call/burst x 4 gaps x 7 consumer arrangements x trailing on/off x period 5ms (thorough: also 50ms) plus random scripts, debounced functions that themselves take 0.6/1.7 waits, Calls and Next after Cancel; executed in testing/synctest bubbles under the race detector with exact virtual timestamps; plus the throttle on the REAL clock under a storm of triggers with permissions taken in pairs bracketed by monotonic clock readings (bracket < period = violation, one-sided and load-proof; 7 (thorough 72) runs of 1.2 (5) s)",
+		Technique:   "timestamping callbacks + consumer log in virtual time (testing/synctest), race detector on; one-sided bracketing of permission pairs on the real clock under a trigger storm",
+		Assumptions: []string{"the fake clock of testing/synctest is the time source the library reads (time.AfterFunc/Since/Now)", "nothing is asserted at exact equality (gap == wait, delta == period): scripts avoid it", "schedules are those the Go runtime produces inside the bubble; thorough tier repeats with varied GOMAXPROCS", "throttle liveness is asserted only for the trailing configuration (as the property states)", "the real-clock monitor can only catch what the real timers and the scheduler make happen within its run time (a window of a few microseconds around a late timer callback was hit in about 4 of 5 quick runs on the loaded machine); its verdict never depends on the load"}})
 	reg(&propCfg{ID: "C04", Pkg: "./props/c04", Variants: simple(false),
-		Level:       "held on every executed case: complete sweep of all Upsert/Delete sequences up to length 6 (thorough 7; one less for the descending comparator) over keys 0..4 plus seeded random sequences over up to 64 keys (sorted, reversed, random and churn insertion orders, look-ups around deleted two-child nodes, re-inserts); every Delete/Get result compared with a map model and Size, Get of every probe key and the complete Traverse sequence (each key once, current value, comparator order) after the last step (sweep) or every step (random)",
+		Level:       "held on every executed case: complete sweep of all Upsert/Delete sequences up to length 6 (thorough 7; one less for the descending comparator) over keys 0..4 plus seeded random sequences over up to 64 keys (sorted, reversed, random and churn insertion orders, look-ups around deleted two-child nodes, re-inserts); every Delete/Get result compared with a map model and Size, Get of every probe key and the complete Traverse sequence (each key once, current value, comparator order) after the last step (sweep) or every step (random), the key just written is read back before any other lookup; bulk cases of 129-5000 keys (sorted/reversed/shuffled loads, three rounds of deleting a fifth and re-inserting) with the complete Traverse sequence checked twice after every phase",
 		Technique:   "reference-model trace monitor (map model) over systematic small-scope sweep + seeded random sequences",
 		Assumptions: []string{"the map model and the generators are trusted", "single goroutine; concurrency is C01/C02"}})
 }
